@@ -301,8 +301,13 @@ def _check_nodes_loop(ctx, f):
                 if nm == "traverse" and tg.func.cls.name == "HexaryTrie":
                     seen["traverse"] += 1
                     a0 = ev.node.args[0] if len(ev.node.args) == 1 else None
-                    bs = ctx.E.bindings(f).get(a0.id, []) if isinstance(a0, ast.Name) else []
-                    chosen = bool(bs) and all(isinstance(b, ast.Call) and any(t.kind == "def" and t.func.name == "nearest_right" for t in ctx.R.resolve_call(b, f, count=False)) for b in bs)
+
+                    def chosen_(a_, depth=0):
+                        bs = ctx.E.bindings(f).get(a_.id, []) if isinstance(a_, ast.Name) else []
+                        if bs and all(isinstance(b, ast.Name) for b in bs) and depth < 4:
+                            return all(chosen_(b, depth + 1) for b in bs)
+                        return bool(bs) and all(isinstance(b, ast.Call) and any(t.kind == "def" and t.func.name == "nearest_right" for t in ctx.R.resolve_call(b, f, count=False)) for b in bs)
+                    chosen = chosen_(a0)
                     if not chosen:
                         problems.append("traverse() is not called with the chosen prefix")
                 if nm == "traverse_from" and tg.func.cls.name == "HexaryTrie":
@@ -319,8 +324,10 @@ def _check_nodes_loop(ctx, f):
                         problems.append("traverse_from() is used without a cache lookup for the chosen prefix")
                 if nm == "add" and tg.func.cls is not None and tg.func.cls.name == "TrieFrontierCache":
                     seen["cache-add"] = seen.get("cache-add", 0) + 1
-                    def bound_to(a_, names):
+                    def bound_to(a_, names, depth=0):
                         bs_ = ctx.E.bindings(f).get(a_.id, []) if isinstance(a_, ast.Name) else []
+                        if bs_ and all(isinstance(b, ast.Name) for b in bs_) and depth < 4:
+                            return all(bound_to(b, names, depth + 1) for b in bs_)  # alias of another local
                         return bool(bs_) and all(isinstance(b, ast.Call) and any(t.kind == "def" and t.func.name in names for t in ctx.R.resolve_call(b, f, count=False)) for b in bs_)
                     aa = ev.node.args
                     okadd = len(aa) == 3 and bound_to(aa[0], ("nearest_right",)) and bound_to(aa[1], ("traverse", "traverse_from")) \
